@@ -921,7 +921,7 @@ pub fn destroy_race_scenario(g: &GenCfg) -> BoxedStrategy<Scenario> {
     g2.fund_pm = 0;
     g2.min_txs = 4;
     g2.max_txs = g.max_txs.max(6);
-    (scenario(&g2), 0u8..4, any::<bool>(), any::<bool>(), 0u8..7, proptest::collection::vec(0u8..3, 6), 0u8..INIT_KINDS, 0u8..2)
+    (scenario(&g2), 0u8..4, any::<bool>(), any::<bool>(), 0u8..6, proptest::collection::vec(0u8..3, 6), 0u8..INIT_KINDS, 0u8..2)
         .prop_map(|(mut sc, guard, polarity, final_destroys, variant, gaps, init, salt)| {
             if sc.txs.len() < 4 || sc.world.eoas.len() < 3 {
                 return sc;
@@ -942,10 +942,10 @@ pub fn destroy_race_scenario(g: &GenCfg) -> BoxedStrategy<Scenario> {
                 2 => (Stmt::Create { create2: true, salt, init, value: 0, store: Some((guard + 2) % 5) }, created.clone()),
                 // destroy, then re-create something else in the same transaction
                 3 => (Stmt::Call { kind: CallKind::Call, target: AddrRef::Con(1), value: 0, sel: 1, arg: None, small_gas: false, store: Some((guard + 2) % 5) }, AddrRef::Con(1)),
-                // a legacy pre-state account with storage but neither code nor nonce lives at the CREATE2
-                // address (possible for contracts deployed with empty code before Spurious Dragon):
-                // the conditional CREATE2 succeeds over it and must reset its storage
-                6 => (Stmt::Create { create2: true, salt, init, value: 0, store: Some((guard + 2) % 5) }, created.clone()),
+                // (not generated: a pre-state account with storage but neither code nor nonce at the CREATE2
+                // address. revm's own State assumes such accounts have no storage - a change of a
+                // Loaded account without nonce and code makes it InMemoryChange, i.e. storage-known -
+                // so its answers depend on whether a slot was read before the change; see DESIGN 5b-11)
                 // a PRE-STATE contract with storage lives at the CREATE2 address: calling it destroys
                 // it (its runtime is the self-destructor), a later routine re-creates it
                 _ => (Stmt::Call { kind: CallKind::Call, target: created.clone(), value: 0, sel: 0, arg: None, small_gas: false, store: None }, created.clone()),
@@ -968,7 +968,7 @@ pub fn destroy_race_scenario(g: &GenCfg) -> BoxedStrategy<Scenario> {
                 ]),
             };
             if placed_variant {
-                sc.world.placed = vec![PlacedDef { at: created.clone(), balance: Bal::Wei(3), storage: vec![(0, 5), (1, 9), (3, 2)], runtime: if variant == 6 { 2 } else { 1 } }];
+                sc.world.placed = vec![PlacedDef { at: created.clone(), balance: Bal::Wei(3), storage: vec![(0, 5), (1, 9), (3, 2)], runtime: 1 }];
                 // re-creation needs the account to be really gone: pre-Cancun self-destruct
                 if sc.spec >= SPEC_CANCUN {
                     sc.spec = SPEC_SHANGHAI;
